@@ -146,7 +146,7 @@ func (r *rpRun) setup(tag string) error {
 		r.rec(2, e2)
 		r.rec(3, e3)
 		r.rec(4, e4)
-	case "B", "C", "D":
+	case "B", "C", "D", "E":
 		e1, err := put(rb, "k1")
 		if err != nil {
 			return err
@@ -189,6 +189,16 @@ func (r *rpRun) setup(tag string) error {
 		e2, err := lm2.Append(ctx, kvOp("k2"), nil)
 		if err != nil {
 			return err
+		}
+		if r.in.Dag == "E" {
+			// ... or (same request tables) a head that names the authorised writer b as its author but is signed by m
+			fid, err := forgedIdentity(ctx, r.nodes["m"], r.nodes["b"].DB.Identity().ID, "orbitdb")
+			if err != nil {
+				return err
+			}
+			if e2, err = mkEntry(ctx, r.nodes["m"], fid, addr, kvOp("k2"), []cid.Cid{}, 1); err != nil {
+				return err
+			}
 		}
 		r.rec(1, e1)
 		r.rec(2, e2)
